@@ -42,14 +42,15 @@ COMPONENTS = {
 PERIOD_TEXTS = ["2012", "2015-03", "month:2014-11:4", "year:2013:2", "2016-02-29", "day:2015-03-17:10", "2010", "month:2018-01:12", "year:2011-06"]
 
 
-def gen_range(rng: random.Random, entry_dates) -> dict:
+def gen_range(rng: random.Random, entry_dates, era=None) -> dict:
     """A range given as period, start/stop or open-ended start, with boundaries drawn
     from the existing entry dates +-1 day as well as at random."""
 
     def boundary():
         if entry_dates and chance(rng, 0.65):
-            return PW.shift(pick(rng, entry_dates), pick(rng, [-1, 0, 0, 1]))
-        return PW.rand_date(rng)
+            d = pick(rng, entry_dates)
+            return PW.shift(d, pick(rng, [-1, 0, 0, 1])) if "0001-01-02" <= d <= "9998-12-30" else d
+        return PW.rand_date(rng, era=era if chance(rng, 0.7) else None)
 
     kind = weighted(rng, [("period", 3), ("startstop", 4), ("start", 3)])
     if kind == "period":
@@ -110,7 +111,9 @@ def all_leaves(tree):
 def c06_generate(seed: int, tier: str) -> dict:
     st = Streams(seed)
     wr = st["world"]
-    tree = PW.gen_tree(wr)
+    # era of the tree's entry dates and unbounded (infinite) values: per-scenario knobs
+    era = weighted(st["era"], [(None, 8.5), ("ancient", 1.0), ("far", 0.5)])
+    tree = PW.gen_tree(wr, era=era, p_inf=pick(st["era"], [0.0, 0.0, 0.0, 0.0, 0.0, 0.25]))
     leaves = all_leaves(tree)
     orr = st["ops"]
     dates = {tuple(p): sorted(d for d, v in vals if v != "expected") for p, vals in leaves}
@@ -118,7 +121,7 @@ def c06_generate(seed: int, tier: str) -> dict:
     for _ in range(orr.randint(2, 8 if tier == "quick" else 16)):
         path, _vals = pick(orr, leaves)
         path = tuple(path)
-        rg = gen_range(orr, dates[path])
+        rg = gen_range(orr, dates[path], era)
         if path[-1] == "threshold":
             base = 100.0 * path[1]
             value = round(orr.uniform(base, base + 50), 2)
@@ -167,7 +170,7 @@ def probe_dates(models, root, leaves, rng, extra=()):
             pass
     for _ in range(4):
         ds.add(PW.rand_date(rng, 2005, 2022))
-    return sorted(d for d in ds if "1000-01-01" <= d <= "9000-01-01")
+    return sorted(d for d in ds if "0001-01-02" <= d <= "9000-01-01")
 
 
 def c06_check_all(res, step, root, tree, models, leaves, dates, what):
@@ -328,7 +331,7 @@ def c06_run(scn) -> Result:
 # =========================================================================== #
 
 
-def gen_mods(rng, tree, n=None):
+def gen_mods(rng, tree, n=None, p_inf=0.0):
     leaves = [p for p in PW.leaf_paths(tree)]
     mods = []
     for _ in range(n or rng.randint(1, 3)):
@@ -345,6 +348,8 @@ def gen_mods(rng, tree, n=None):
             path = pick(rng, leaves)
             dates = sorted(d for d, v in PW.spec_at(tree, path)["values"] if v != "expected")
             value = round(rng.uniform(0, 10), 2) if path[0] != "flags" else chance(rng, 0.5)
+            if p_inf and path[0] != "flags" and chance(rng, p_inf):
+                value = pick(rng, [float("inf"), float("-inf")])  # a ceiling or floor lifted
             mods.append(["update", list(path), gen_range(rng, dates), value])
         elif kind == "add_child":
             mods.append(["add_child", pick(rng, [[], ["g"], ["g", "h"]]), f"new{rng.randrange(1000)}", PW.gen_leaf(rng)])
@@ -398,8 +403,10 @@ def gen_read(rng, tree, systems, hot=None, pool=None, traced_bias=False):
 def c07_generate(seed: int, tier: str) -> dict:
     st = Streams(seed)
     wr = st["world"]
-    tree = PW.gen_tree(wr)
-    alt = {"T1": PW.gen_tree(wr)}
+    # unbounded (infinite) parameter values: a per-scenario knob
+    p_inf = pick(st["era"], [0.0, 0.0, 0.0, 0.0, 0.3])
+    tree = PW.gen_tree(wr, p_inf=p_inf)
+    alt = {"T1": PW.gen_tree(wr, p_inf=p_inf)}
     # the alternative tree keeps the vectorisable groups' shapes
     for g in ("zones", "nz", "asof"):
         alt["T1"][g] = copy.deepcopy(tree[g])
@@ -417,7 +424,7 @@ def c07_generate(seed: int, tier: str) -> dict:
     for _ in range(n_ops):
         r = orr.random()
         if r < 0.22:
-            mods = gen_mods(orr, tree)
+            mods = gen_mods(orr, tree, p_inf=p_inf)
             new = f"S{len(systems)}"
             read_first = []
             if chance(orr, 0.5):
@@ -430,7 +437,7 @@ def c07_generate(seed: int, tier: str) -> dict:
             hot = _hot(mods)
         elif r < 0.30 and len(systems) > 1:
             sid = pick(orr, systems[1:])
-            mods = gen_mods(orr, tree)
+            mods = gen_mods(orr, tree, p_inf=p_inf)
             seen = [x for x in recent_reads if x[0] == sid]
             if seen and chance(orr, 0.7):
                 # change, through the documented route, exactly what this system was
